@@ -254,6 +254,8 @@ class ExprMixin(object):
       return VClass(name)
     if name == 'assume' and self.ghost_depth:
       return VBound('ghostassume', name)
+    if name == 'prove' and self.ghost_depth:
+      return VBound('ghostprove', name)
     if name in BUILTINS:
       return VBound('builtin', name)
     raise Unsupported('unbound name %s at line %s' % (name, getattr(node, 'lineno', '?')))
